@@ -32,7 +32,7 @@ def run(tier, seed, replay=None):
             return chk.finish()
         vlib.tlc_expect_ok(res, "Mesh (C11 action properties)")
         p = os.path.join(work, "pass.ndjson")
-        npass, maxrec, maxnodes = (200, 330, 50) if tier == "quick" else (4000, 6000, 150)
+        npass, maxrec, maxnodes = (200, 460, 50) if tier == "quick" else (4000, 6000, 150)
         rc, out = vlib.run([os.path.join(bdir, "refine_driver"), "c11", str(npass), str(seed), p, str(maxrec), str(maxnodes)], timeout=1500)
         if rc == 124:
             chk.violation("pass-hang", "a real refine_mesh pass did not return within the time limit (termination)", {"seed": seed})
@@ -70,6 +70,9 @@ def run(tier, seed, replay=None):
                 raise ModelError("vacuous: no %s record" % need)
         if not chk.cov["passes"]["conforming_input"]:
             raise ModelError("vacuous: no pass on a conforming mesh")
+        chk.cov["splits_of_nanometre_edges"] = sum(1 for r in rows if r["op"] == "split" and 0 < float(r["num"].get("len2", "1")) < 1e-15)
+        if not chk.cov["splits_of_nanometre_edges"]:
+            raise ModelError("vacuous: no split on a nanometre-scale cell")
         chk.cov["swaps_asked_for_and_refused"] = sum(1 for r in rows if r["op"] == "swap" and r["pre"]["tri"] == r["post"]["tri"])
         if not chk.cov["swaps_asked_for_and_refused"]:
             raise ModelError("vacuous: no swap that the quality rule asked for and swap_edge refused")
